@@ -54,4 +54,7 @@ class VC(Scheduler):
         self.add_packet_to_queue(packet)
         # transmite packets by the order of increasing stamp values
         # use aux_vc as stamp value
-        self.store.put(PriorityItem((self.aux_vc[class_id], now), packet))
+        # packets_received breaks ties in arrival order (equal stamps handed in at the same instant)
+        self.store.put(
+            PriorityItem((self.aux_vc[class_id], now, self.packets_received), packet)
+        )
